@@ -66,8 +66,9 @@ def step_cfg(beh):
     return c
 
 
-def build_pipeline(behs):
-    """embeds one or two varied steps in a minimal legal pipeline; returns (cfg, {step name: behaviour}, multiband)"""
+def build_pipeline(behs, with_validation=False):
+    """embeds one or two varied steps in a minimal legal pipeline; returns (cfg, {step name: behaviour}, multiband).
+    with_validation: a default validation step is added (configuration checking then makes a second round, images exchanged)"""
     kinds, names_of = [], {}
     multiband = max(b["multiband"] for b in behs)
     kinds_needed = [b["kind"] for b in behs]
@@ -78,7 +79,7 @@ def build_pipeline(behs):
         seq.append("cost_volume_confidence")
     seq.append("disparity")
     for k in ("refinement", "filter", "validation", "multiscale"):
-        if k in kinds_needed:
+        if k in kinds_needed or (k == "validation" and with_validation):
             seq.append(k)
     pipe = {}
     varied = {}
@@ -118,16 +119,21 @@ def run(tier):
              1: (build.make_metadata(8, 10, bands=["r", "g"], disp=(-2, 2)), build.make_metadata(8, 10, bands=["r", "g"], disp=None)),
              2: (build.make_metadata(8, 10, bands=["r", "g"], disp=(-2, 2)), build.make_metadata(8, 10, bands=["g", "b"], disp=None))}
 
-    def replay(group, label):
-        cfg, varied, multiband = build_pipeline(group)
+    shared = [PandoraMachine()]
+
+    def replay(group, label, with_validation=False, reuse=False):
+        cfg, varied, multiband = build_pipeline(group, with_validation)
+        # reuse: the machine object has already checked other pipelines (accepted and rejected ones): nothing of them may show
+        machine = shared[0] if reuse else PandoraMachine()
         user = copy.deepcopy(cfg)
         verdicts = [b["verdict"] for b in group]
         want = "reject" if "reject" in verdicts else ("unspecified" if "unspecified" in verdicts else "accept")
         feat = {"kinds": sorted(varied), "methods": [b["method"] for b in group], "params": [[n for n, _ in b["cfg"]] for b in group],
-                "types": [[v["t"] for _, v in b["cfg"]] for b in group], "expected": want, "multiband": multiband, "label": label}
+                "types": [[v["t"] for _, v in b["cfg"]] for b in group], "expected": want, "multiband": multiband, "label": label,
+                "with_validation": with_validation, "machine_reused": reuse}
         mL, mR = metas[multiband]
         try:
-            out = check_pipeline_section(cfg, mL, mR, PandoraMachine())
+            out = check_pipeline_section(cfg, mL, mR, machine)
             got = "accept"
         except Exception as exc:  # pylint: disable=broad-except
             out, got = None, "reject"
@@ -170,7 +176,9 @@ def run(tier):
     for i in singles:
         b = behs[i]
         chk.count((b["kind"], b["method"], str(b["cfg"]), b["multiband"]))
-        replay([b], f"single#{i}")
+        replay([b], f"single#{i}", reuse=(i % 2 == 1))
+        if i % 3 == 0 and b["kind"] != "validation":
+            replay([b], f"single+validation#{i}", with_validation=True, reuse=(i % 2 == 1))
     for i in singles[:3]:
         chk.sample({"behaviour": behs[i]})
     # pairs of varied steps of different kinds in one pipeline
